@@ -1391,14 +1391,23 @@ fn c13_check(ctx: &mut Ctx, f: &[u8], suffixes: &[Vec<u8>], label: &'static str)
         // the scanner's view of the same bytes
         match guard(|| {
             let (c, fr) = next_msg_frame(&g);
-            (c, fr.map(|x| x.frame_len()))
+            let stateless = (c, fr.map(|x| x.frame_len()));
+            // and the iterator's first step over the same bytes
+            let mut it = MsgFrameIter::new(&g);
+            let first = (&mut it).next().map(|x| x.frame_len());
+            let via_iter = (it.consumed(), first);
+            if via_iter != stateless && stateless.1 == Some(f.len()) {
+                via_iter
+            } else {
+                stateless
+            }
         }) {
             Ok((c, Some(fl))) if c == f.len() && fl == f.len() => {}
             Ok(other) => {
                 ctx.violation(
                     format!("C13.scanner_independent_of_suffix|{}", if sfx.is_empty() { "no_suffix" } else { "suffix" }),
                     "C13.scanner_independent_of_suffix",
-                    format!("next_msg_frame on a valid frame of {} bytes followed by {} bytes returned {:?} instead of delivering the frame at offset 0", f.len(), sfx.len(), other),
+                    format!("next_msg_frame / the first MsgFrameIter::next() on a valid frame of {} bytes followed by {} bytes returned {:?} instead of delivering the frame at offset 0", f.len(), sfx.len(), other),
                     replay(sfx),
                 );
             }
@@ -1589,6 +1598,15 @@ fn suffix_set(rng: &mut Rng) -> Vec<Vec<u8>> {
     let p = rng.bytes(pl);
     v.push(crc::frame(&p));
     v.push(vec![0xD3, 0x00]);
+    // the first 1..5 bytes of a following frame
+    {
+        let pl = rng.usize_below(30);
+        let p = rng.bytes(pl);
+        let nf = crc::frame(&p);
+        let k = rng.range(1, 5) as usize;
+        v.push(nf[..k.min(nf.len())].to_vec());
+        v.push(vec![0xD3, rng.u8()]);
+    }
     v.push(vec![0xD3; 7]);
     v.push(vec![0xFF; 9]);
     v.push(vec![0x00; 5]);
